@@ -280,6 +280,88 @@ def leaves(w, rich=True):
     return L
 
 
+def compositions(w):
+    """multi-part compositions (3 and 4 parts) mixing register slices and constants at every position -
+    adjacent constant parts away from bit 0, constants with their top bit set, ... - bare, sliced across
+    the part boundaries, extended, negated and combined with a register"""
+    if w < 4:
+        return []
+    q = max(1, w // 4)
+    splits = [[q, q, w - 2 * q], [w - 2 * q, q, q], [q, w - 2 * q, q]]
+    if w >= 8:
+        splits.append([q, q, q, w - 3 * q])
+    regs = ["a", "b", "p", "q"]
+
+    def consts(n):
+        vals = [1, (1 << n) - 1, 1 << (n - 1), 0xA5 & ((1 << n) - 1)]
+        out = []
+        for v in vals:
+            if v not in out:
+                out.append(v)
+        return out
+    pats3 = ["RCC", "CCR", "CRC", "RCR", "CCC", "RRC"]
+    pats4 = ["RCCR", "CRCC", "RCRC", "CCRC"]
+    cats = []
+    for sp in splits:
+        for pat in (pats3 if len(sp) == 3 else pats4):
+            ncst = pat.count("C")
+            # constant choices: vary one position at a time around a base choice
+            base = [consts(sp[i])[min(1, len(consts(sp[i])) - 1)] for i in range(len(sp))]
+            choices = [list(base)]
+            for i in range(len(sp)):
+                if pat[i] == "C":
+                    for v in consts(sp[i]):
+                        c2 = list(base)
+                        c2[i] = v
+                        if c2 not in choices:
+                            choices.append(c2)
+            for ch in choices:
+                parts = []
+                for i, kind in enumerate(pat):
+                    if kind == "R":
+                        parts.append(("rslc", regs[i], w, (i * 3) % max(1, w - sp[i] + 1), sp[i]))
+                    else:
+                        parts.append(("cst", ch[i], sp[i]))
+                cats.append(("cat", parts))
+    out = []
+    a = ("reg", "a", w)
+    for t in cats:
+        out.append(t)
+        out.append(("slc", t, q // 2 if q > 1 else 1, w - q))
+        out.append(("slc", t, q, w - q))
+        out.append(("sx", t, 2 * w))
+        out.append(("zx", t, 2 * w))
+        out.append(("uop", "-", t))
+        out.append(("op", "+", t, a))
+        out.append(("op", "^", a, t))
+        out.append(("op", "==", t, a))
+        out.append(("op", ">>", t, ("cst", q + 1, w)))
+        out.append(("op", "<<", t, ("cst", q - 1 if q > 1 else 1, w)))
+    return out
+
+
+def mixed_sign_equalities(w):
+    """== / != between operands of the same bits but different declared signedness (sign-extended against
+    zero-extended values, signed against plain constants): equality is sign-agnostic"""
+    if w < 2:
+        return []
+    h = max(1, w // 2)
+    A = [("reg", "a", h), ("rslc", "R", 2 * w, 1, h), ("cst", 1 << (h - 1), h), ("cst", (1 << h) - 1, h)]
+    B = [("reg", "b", h), ("cst", 1 << (h - 1), h), ("cst", (1 << h) - 1, h), ("cst", 1, h)]
+    W = [("reg", "c", 2 * h), ("cst", (1 << (2 * h)) - 1, 2 * h), ("cst", ((1 << h) - 1) << h | (1 << (h - 1)), 2 * h), ("cst", 1 << (h - 1), 2 * h)]
+    out = []
+    for op in ("==", "!="):
+        for l in A:
+            for r in B:
+                out.append(("op", op, ("sx", l, 2 * h), ("zx", r, 2 * h)))
+                out.append(("op", op, ("zx", l, 2 * h), ("sx", r, 2 * h)))
+                out.append(("op", op, ("sx", l, 2 * h), ("sx", r, 2 * h)))
+            for x in W:
+                out.append(("op", op, ("sx", l, 2 * h), x))
+                out.append(("op", op, x, ("sx", l, 2 * h)))
+    return out
+
+
 ARITH = ["+", "-", "*", "&", "|", "^"]
 SHIFT = ["<<", ">>", ".>>"]
 ROT = [">>>", "<<<"]
